@@ -470,15 +470,14 @@ class Environment:
             return obj[argument]
         except (AttributeError, TypeError, LookupError):
             if isinstance(argument, str):
+                # str() of a str subclass runs data code; whatever it raises
+                # belongs to the caller and is not a lookup failure.
+                attr = str(argument)
+
                 try:
-                    attr = str(argument)
-                except Exception:
+                    return getattr(obj, attr)
+                except AttributeError:
                     pass
-                else:
-                    try:
-                        return getattr(obj, attr)
-                    except AttributeError:
-                        pass
             return self.undefined(obj=obj, name=argument)
 
     def getattr(self, obj: t.Any, attribute: str) -> t.Any:
